@@ -15,6 +15,17 @@
 #define C12_MAXD 3  // levels below the root that are reported (deeper -> out[5] != 0)
 #endif
 
+// control under the tree builder: the documented customisation point vf::vcontrol (raise throws a POD), or must_if<> on top of it
+// (rules 1 and 101 turn their local failure into a global one from inside Control::failure())
+namespace vf
+{
+   template< typename Rule >
+   using vmi_control = typename tao::pegtl::must_if< verrors, vcontrol, false >::template control< Rule >;
+}
+#ifndef C12_CONTROL
+#define C12_CONTROL vf::vcontrol
+#endif
+
 namespace c12
 {
    struct tnode;
@@ -147,7 +158,7 @@ namespace c12
       out[ 5 ] = 0;
       out[ 6 ] = 0;
       try {
-         const std::unique_ptr< tnode > r = parse_tree::parse< Rule, tnode, Selector, Action, vf::vcontrol >( in );
+         const std::unique_ptr< tnode > r = parse_tree::parse< Rule, tnode, Selector, Action, C12_CONTROL >( in );
          if( r ) {
             unsigned long count = 0;
             unsigned long lost = 0;
@@ -181,7 +192,7 @@ namespace c12
       in.bump_in_this_line( start );
       out[ 2 ] = 0;
       try {
-         out[ 0 ] = tao::pegtl::parse< Rule, Action, vf::vcontrol >( in ) ? 1 : 0;
+         out[ 0 ] = tao::pegtl::parse< Rule, Action, C12_CONTROL >( in ) ? 1 : 0;
       }
       catch( const vf::verif_exc& e ) {
          out[ 0 ] = 2;
@@ -205,7 +216,7 @@ namespace c12
       out[ 2 ] = 0;
       parse_tree::internal::state< tnode > st;
       try {
-         out[ 0 ] = tao::pegtl::parse< Rule, Action, parse_tree::internal::make_control< tnode, Selector, vf::vcontrol >::template type >( in, st ) ? 1 : 0;
+         out[ 0 ] = tao::pegtl::parse< Rule, Action, parse_tree::internal::make_control< tnode, Selector, C12_CONTROL >::template type >( in, st ) ? 1 : 0;
       }
       catch( const vf::verif_exc& e ) {
          out[ 0 ] = 2;
